@@ -180,12 +180,12 @@ theorem step_busy {s : St} (h : SInv s) (hb : Busy s) (cfg : Cfg) (e : Ev) (hne 
         cases r with
         | err e => exact reqErr_busy h hp cfg e
         | ok m g leader n =>
-          simp only []
+          simp only [abandonHb_eq, andThen_fst]
           split
-          · rename_i hs; exact busy_stopping (s := { s with member := m, gen := some g, jpc := .idle, rejoinD := false }) hs
+          · rename_i hs; exact busy_stopping (s := { s with member := m, gen := some g, hbInFlight := false, jpc := .idle, rejoinD := false }) hs
           · split
-            · exact busy_rd (s := { s with member := m, gen := some g, jpc := .loadParts n }) hrd
-            · exact busy_rd (s := { s with member := m, gen := some g, jpc := .sync }) hrd
+            · exact busy_rd (s := { s with member := m, gen := some g, hbInFlight := false, jpc := .loadParts n }) hrd
+            · exact busy_rd (s := { s with member := m, gen := some g, hbInFlight := false, jpc := .sync }) hrd
     | partsDone r =>
       simp only [step]; split
       · rename_i n hj
